@@ -7,6 +7,7 @@ package sub
 //@ struct socket
 //@   lock Mutex level 20
 //@   guarded_by Mutex: ctxs closed
+//@   invariant forall(k, ctxs, k.s == this)
 //@   immutable: master
 //@
 //@ struct pipe
@@ -17,6 +18,8 @@ package sub
 //@   close_token closeQ when closed
 //@   close_token sizeQ
 //@   guarded_by s.Mutex: recvQLen recvQ sizeQ recvExpire closed subs
+//@   invariant cap(recvQ) == recvQLen
+//@   invariant recvQLen >= 0
 //@   immutable: closeQ s
 //@
 //@ func (*context).matches
@@ -119,3 +122,7 @@ package sub
 //@   ensures !wasClosed ==> isnil(result)
 //@
 // ---- end generated AddPipe contracts ----
+
+// ---- round 5 ----
+//@ func (*context).unsubscribe
+//@   ensures c.recvQ != old(c.recvQ) ==> closed(old(c.sizeQ)) && c.sizeQ != old(c.sizeQ)
